@@ -22,7 +22,10 @@ def run(ctx):
                 "LOCAL_PREF 200/300, MED, next hop, prepend A/B of equal length, LOCAL_PREF for one prefix) so that every ordered pair "
                 "(old, new) is replaced with routes present, plus repeated replacements in seeded random behaviours; the invariant is "
                 "stated against the CURRENT policy so equality with a fresh start is what is compared after every step; "
-                "non-trivial = at least one ReplacePolicy step with a route stored")
+                "non-trivial = at least one ReplacePolicy step with a route stored. Server level: BGPFSM behaviours with SetImport / "
+                "SetExport (accept <-> reject through BGPServer.ReplaceImportFilterChain / ReplaceExportFilterChain) in every session "
+                "state, a route learned from the peer and a route of another source; Loc-RIB and Adj-RIB-Out of the real session must "
+                "equal the model's after every step")
 
     def nt(b):
         return any(s["a"] == "ReplacePolicy" and s["st"]["adjin"] for s in b[1:])
@@ -37,5 +40,15 @@ def run(ctx):
                    ("v4o8", "v6o60") if not big else ("v4o0", "v4o28", "v6o30", "v6o124"),
                    lambda b: any(s["a"] == "ReplaceExport" and any(e["paths"] for e in s["st"]["rib"]) for s in b[1:]),
                    40000 if big else 4000)
+    # server level: replacement through BGPServer.ReplaceImportFilterChain / ReplaceExportFilterChain in every session state
+    # (before the first connection, between sessions, while established), with routes from the peer and from another source
+    sc_spec = importlib.util.spec_from_file_location("sc", os.path.join(os.path.dirname(__file__), "session_common.py"))
+    sc = importlib.util.module_from_spec(sc_spec); sc_spec.loader.exec_module(sc)
+    sb = []
+    for cfg in ("ebgp", "ibgp"):
+        c = sc.consts(cfg, {"ok"}, {"annA"}, set(), {"Notification"}, 8 if big else 7, sessions=2, pols={"accept", "reject"}, origs={"o1"})
+        sb += sc.run_family(ctx, "server-level policy replacement " + cfg, c, 6000 if big else 700, design=(cfg == "ebgp"), sim=(400 if big else 60, 14))
+    ctx.replay("session", sb, per_timeout=90, shards=16,
+               nontrivial=lambda b: any(s["a"] in ("SetImport", "SetExport") for s in b) and any(s["s"]["st"] == "Established" for s in b))
     rc.ribin_runs(ctx, runs, sims, ("v4o8", "v6o60") if not big else ("v4o0", "v4o28", "v6o30", "v6o124"), nt,
                   40000 if big else 4000)
